@@ -311,6 +311,16 @@ def run(tier, seed):
     items.append((dict(two_ctx), [{"kind": "convert", "input": "き", "context": "Normal"}, {"kind": "confirm", "session": 0, "cid": "0", "text": "木"},
                                   {"kind": "convert", "input": "き", "context": "ForeignWord"}, {"kind": "confirm", "session": 1, "cid": "0", "text": "気"},
                                   {"kind": "convert", "input": "き", "context": "Numeral"}, {"kind": "confirm", "session": 2, "cid": "0", "text": "木"}]))
+    # words written exactly as they are read (kana-only written forms) next to kanji homophones, a one-character reading, a word whose written form
+    # is another word's reading: each of them, confirmed, raises its own count
+    kana_base = {"std": [{"reading": "これ", "stem": "これ", "speech": {"Noun": "Common"}}, {"reading": "これ", "stem": "此れ", "speech": {"Noun": "Common"}},
+                         {"reading": "き", "stem": "き", "speech": {"Noun": "Common"}}, {"reading": "き", "stem": "木", "speech": {"Noun": "Common"}},
+                         {"reading": "もく", "stem": "き", "speech": {"Noun": "Common"}}, {"reading": "もく", "stem": "木", "speech": {"Noun": "Proper"}}], "anc": [], "tankan": []}
+    kreqs = []
+    for inp, txt, ctx in (("これ", "これ", "Normal"), ("これ", "此れ", "Normal"), ("き", "き", "Normal"), ("もく", "き", "Normal"), ("き", "き", "ForeignWord"), ("もく", "木", "Normal"), ("これ", "これ", "Numeral")):
+        kreqs += [{"kind": "convert", "input": inp, "context": ctx}, {"kind": "confirm", "session": len(kreqs) // 2, "cid": "0", "text": txt}]
+    kreqs += [{"kind": "proper", "input": "もく"}, {"kind": "confirm", "session": len(kreqs) // 2, "cid": "0", "text": "木"}]
+    items.append((kana_base, kreqs))
     # stale counts dropped by a confirmation, then a save and a restart: they must not come back from the file
     items.append((dict(two_ctx), [{"kind": "convert", "input": "き", "context": "Normal"}, {"kind": "confirm", "session": 0, "cid": "0", "text": "気"}, {"kind": "wait_save"},
                                   {"kind": "restart"}, {"kind": "convert", "input": "き", "context": "Normal"}, {"kind": "confirm", "session": 1, "cid": "0"}]))
